@@ -166,4 +166,30 @@ def sniVerdict (cfgs : List Cfg) (r : Casket.VHost.Req) (sni : Option Bytes) (o 
       else "ok"
   | _, _ => "ok"
 
+def sameClientAuth (c d : Cfg) : Bool := c.clientAuth == d.clientAuth && c.clientCerts == d.clientCerts
+
+/-- SNI = Host = one name: a site that demands client certificates (check not switched off) serves
+the request only if the handshake was governed by settings with the same client-certificate
+policy — i.e. by its own config or one that had to be compatible with it. `any`: the config
+is picked by map iteration, so every config of the listener must agree. -/
+def crossVerdict (cfgs : List Cfg) (o : Obs × Served) : String :=
+  match o.2 with
+  | .site i =>
+    match cfgs[i]? with
+    | none => "ok"
+    | some c =>
+      if c.clientAuth == 0 || c.disableSNIMatching then "ok"
+      else
+        match o.1 with
+        | .cfg j _ =>
+          match cfgs[j]? with
+          | some d => if sameClientAuth c d then "ok"
+                      else "bad:clientauth-bypass:the request reached a client-certificate site over a handshake governed by another policy"
+          | none => "ok"
+        | .any =>
+          if cfgs.all (sameClientAuth c) then "ok"
+          else "bad:clientauth-bypass-failover:the handshake is governed by an arbitrary config of the listener, not by the client-certificate site that serves the request"
+        | _ => "ok"
+  | _ => "ok"
+
 end Casket.TLSSpec
